@@ -1157,7 +1157,14 @@ where
                         runtime_types.insert(Some(atom!("Number")));
                     }
                 } else {
-                    match &*ident.sym {
+                    // the names below are the global ones only when nothing in the module (an
+                    // import, say `import type { Map } from 'leaflet'`) binds them
+                    let sym = if ident.ctxt.has_mark(self.unresolved_mark) {
+                        &*ident.sym
+                    } else {
+                        ""
+                    };
+                    match sym {
                         "Array" | "Function" | "Object" | "Set" | "Map" | "WeakSet" | "WeakMap"
                         | "Date" | "Promise" | "Error" | "RegExp" => {
                             runtime_types.insert(Some(ident.sym.clone()));
@@ -1242,6 +1249,22 @@ where
             }
             TsType::TsOptionalType(TsOptionalType { type_ann, .. }) => {
                 runtime_types.extend(self.infer_runtime_type(type_ann));
+            }
+            // `readonly string[]` has the values of `string[]`
+            TsType::TsTypeOperator(TsTypeOperator {
+                op: TsTypeOperatorOp::ReadOnly,
+                type_ann,
+                ..
+            }) => runtime_types.extend(self.infer_runtime_type(type_ann)),
+            // `keyof T`, `typeof x`, conditional types, `NS.Name`, `import('m').T`: nothing is
+            // known about their values here, so nothing is checked
+            TsType::TsTypeOperator(..)
+            | TsType::TsTypeQuery(..)
+            | TsType::TsConditionalType(..)
+            | TsType::TsInferType(..)
+            | TsType::TsImportType(..)
+            | TsType::TsTypeRef(..) => {
+                runtime_types.insert(Some(atom!("any")));
             }
             _ => {
                 runtime_types.insert(Some(atom!("Object")));
